@@ -102,6 +102,10 @@ LongCases ==
   \cup {Req("POST", "/x?q=" \o Rpt("z", 1500), "1.1", <<P("Host", "h"), P("User-Agent", Rpt("u", n)), P("X-Long", Rpt("v", n))>>) : n \in {1023, 1024, 1025, 4000, 8000}}
   \cup {Resp("1.1", 200, Rpt("r", n), <<P("Server", "s"), P("X-Long", Rpt("w", n))>>) : n \in {1010, 1024, 1100, 4000}}
   \cup {Resp("1.0", 404, "Not Found", <<P("Server", Rpt("S", n)), P("Content-Type", "t")>>) : n \in {1024, 8000}}
+  \* long field NAMES (no limit but the line's): 1023 .. 1025, 1500, 4000 characters, in requests and responses
+  \* (the lower-case form is written out: Lower() on thousands of characters is slow in TLC)
+  \cup {Req("GET", "/", "1.1", <<P("Host", "h"), [t |-> "plain", name |-> "X-" \o Rpt("n", n), ln |-> "x-" \o Rpt("n", n), lws |-> " ", value |-> "v", rws |-> ""], P("User-Agent", UA)>>) : n \in {1021, 1022, 1023, 1500, 4000}}
+  \cup {Resp("1.1", 200, "OK", <<P("Server", "s"), [t |-> "plain", name |-> "x-" \o Rpt("m", n), ln |-> "x-" \o Rpt("m", n), lws |-> " ", value |-> "v", rws |-> ""]>>) : n \in {1022, 1023, 1500, 4000}}
 
 Cases == CASE Fam = "common" -> CommonCases [] Fam = "long" -> LongCases [] Fam = "dup" -> DupCases [] Fam = "start" -> StartCases [] Fam = "hdrs" -> HdrCases [] Fam = "ows" -> OwsCases [] Fam = "cookie" -> CookieCases
            [] Fam = "lang" -> LangCases [] Fam = "many" -> ManyCases
